@@ -5,15 +5,17 @@ import (
 	"crypto/sha256"
 	"encoding/hex"
 	"fmt"
+	"sort"
+	"strings"
 )
 
 // C10: output is deterministic and independent of history.
 
 type poolProg struct {
-	Src  []byte `json:"src"`
-	Kind string `json:"kind"`
-	Ref  []byte `json:"ref"`   // output of a fresh CLI process
-	RefOK bool  `json:"refok"` // the fresh process exited 0 and wrote the file
+	Src   []byte `json:"src"`
+	Kind  string `json:"kind"`
+	Ref   []byte `json:"ref"`   // output of a fresh CLI process
+	RefOK bool   `json:"refok"` // the fresh process exited 0 and wrote the file
 }
 
 type histStep struct {
@@ -153,6 +155,18 @@ func buildC10Pool(env *Env, r *Rand, n int) ([]poolProg, [][]int) {
 			add(fmt.Sprintf("sibling-group%d", gi), src)
 		}
 		sib = append(sib, idx)
+	}
+	corpus := loadCorpus(env)
+	var cn []string
+	for k := range corpus {
+		cn = append(cn, k)
+	}
+	sort.Strings(cn)
+	for _, k := range cn {
+		if strings.Contains(k, "day01") || strings.Contains(k, "day02") {
+			continue // 1.4 MB floppy images: too large for thousands of repetitions
+		}
+		add("book-"+strings.TrimSuffix(k, ".nas"), corpus[k])
 	}
 	n += len(pool)
 	for i := 0; len(pool) < n; i++ {
